@@ -502,7 +502,7 @@ func main() {
 			}, fmt.Sprintf("box=%v orientation=%d multipolygon=%v result=%v", gbox, o, mp, gm))
 			g := smartclip.Geometry(gbox, orb.MultiPolygon{poly.Clone(), {second.Clone()}}, o)
 			switch {
-			case len(gm) == 0 && g != nil, len(gm) == 1 && !orb.Equal(g, gm[0]), len(gm) > 1 && !orb.Equal(g, gm):
+			case len(gm) == 0 && g != nil, len(gm) == 1 && !refgeom.Equal(g, gm[0]), len(gm) > 1 && !refgeom.Equal(g, gm):
 				c.Failf("generic", "smartclip.Geometry = %v, MultiPolygon gives %v", g, gm)
 			}
 		}
